@@ -59,11 +59,16 @@ int xerbla_(char *srname, int *info) {
     strncpy(xerbla_name, srname, 63); xerbla_arg = *info; xerbla_calls++; return 0;
 }
 
-/* ---- optional schedule perturbation hook (only called when the library was built with SLU_MT_VERIF
- *      hooks; harmless otherwise) ---- */
+/* ---- verification hook: schedule perturbation + global sequence-numbered event log ---- */
 static unsigned long long perturb_seed = 0; static int perturb_level = 0;
+typedef struct { int kind, pnum; long a, b, c; } ev_t;
+static ev_t *evlog = 0; static long evcap = 0; static volatile long evcount = 0; static int evlog_on = 0; static int evlog_dfs = 1;
 void slu_mt_verif_event(int kind, int pnum, long a, long b, long c) {
-    if (!perturb_level) return;
+    if (evlog_on && (kind != 14 || evlog_dfs)) {
+        long i = __atomic_fetch_add(&evcount, 1, __ATOMIC_SEQ_CST);
+        if (i < evcap) { evlog[i].kind = kind; evlog[i].pnum = pnum; evlog[i].a = a; evlog[i].b = b; evlog[i].c = c; }
+    }
+    if (!perturb_level || pnum < 0) return;
     static __thread unsigned long long st = 0;
     if (!st) st = perturb_seed * 6364136223846793005ULL + (unsigned long long)(pnum + 1) * 1442695040888963407ULL + 1;
     st ^= st << 13; st ^= st >> 7; st ^= st << 17;
@@ -112,6 +117,14 @@ static void ensure_perm(int_t n) {
         for (int_t i = 0; i < n; i++) { perm_c[i] = i; perm_r[i] = i; } pn = n;
         free(Rv); free(Cv); Rv = malloc(sizeof(real_t) * (n + 1)); Cv = malloc(sizeof(real_t) * (n + 1));
         for (int_t i = 0; i < n; i++) Rv[i] = Cv[i] = 1; }
+}
+
+static void dump_events(void) {
+    if (!evlog_on) return;
+    long nev = evcount < evcap ? evcount : evcap;
+    fprintf(out, "events %ld %ld\n", nev, (long)evcount);
+    for (long i = 0; i < nev; i++) fprintf(out, "e %d %d %ld %ld %ld\n", evlog[i].kind, evlog[i].pnum, evlog[i].a, evlog[i].b, evlog[i].c);
+    evcount = 0;
 }
 
 static void dump_LU(void) {
@@ -182,6 +195,7 @@ int main(int argc, char **argv) {
     while (next_tok()) {
         if (!strcmp(tok, "ienv")) { for (int i = 1; i <= 8; i++) ienv_tab[i] = rd_int(); }
         else if (!strcmp(tok, "perturb")) { perturb_level = rd_int(); perturb_seed = (unsigned long long)rd_int(); }
+        else if (!strcmp(tok, "evlog")) { evlog_on = rd_int(); evlog_dfs = rd_int(); if (evlog_on && !evlog) { evcap = 4000000; evlog = malloc(sizeof(ev_t) * evcap); } }
         else if (!strcmp(tok, "mat")) {
             int s = rd_int(); next_tok(); int nr = !strcmp(tok, "NR"); int_t n = rd_int(), nnz = rd_int();
             matslot *a = &A_[s];
@@ -223,10 +237,11 @@ int main(int argc, char **argv) {
         else if (!strcmp(tok, "gssv")) {
             int ai = rd_int(), bi = rd_int(); int_t nprocs = rd_int(); matslot *a = &A_[ai]; dnslot *b = &B_[bi];
             ensure_perm(a->n); free_LU(); int_t info = -999; int t0 = count_threads_once();
-            xerbla_calls = 0;
+            xerbla_calls = 0; evcount = 0;
             PP(gssv)(nprocs, &a->M, perm_c, perm_r, &L, &U, &b->M, &info);
             int t1 = count_threads_settled(t0);
             fprintf(out, "op gssv\ninfo %ld\nxerbla %d %s %d\nthreads %d %d\n", (long)info, xerbla_calls, xerbla_calls ? xerbla_name : "-", xerbla_arg, t0, t1);
+            dump_events();
             report_A_B(ai, bi);
             if (info >= 0 && xerbla_calls == 0 && info <= a->n) { haveLU = 1; userwork_len = 0; }
             pr_ints("perm_r", perm_r, a->n); pr_ints("perm_c", perm_c, a->n);
@@ -255,11 +270,12 @@ int main(int argc, char **argv) {
             real_t rpg = -1, rcond = -1; real_t *ferr = malloc(sizeof(real_t) * (b->nrhs + 1)), *berr = malloc(sizeof(real_t) * (b->nrhs + 1));
             for (int i = 0; i <= b->nrhs; i++) ferr[i] = berr[i] = -1;
             superlu_memusage_t mu; memset(&mu, 0, sizeof mu); int_t info = -999; xerbla_calls = 0; int t0 = count_threads_once();
-            equed_t equed_in = equed;
+            equed_t equed_in = equed; evcount = 0;
             PP(gssvx)(nprocs, &opts, &a->M, perm_c, perm_r, &equed, Rv, Cv, &L, &U, &b->M, &X, &rpg, &rcond, ferr, berr, &mu, &info);
             int t1 = count_threads_settled(t0);
             fprintf(out, "op gssvx\ninfo %ld\nxerbla %d %s %d\nthreads %d %d\n", (long)info, xerbla_calls, xerbla_calls ? xerbla_name : "-", xerbla_arg, t0, t1);
             fprintf(out, "equed %d %d\nusepr_after %d\n", (int)equed_in, (int)equed, (int)opts.usepr);
+            dump_events();
             if (xerbla_calls == 0 && fact != FACTORED && lwork != -1 && (info == 0 || (info > 0 && info <= n + 1))) haveLU = 1;
             report_A_B(ai, bi);
             pr_elems("A.val", a->val, a->nnz);
